@@ -422,6 +422,35 @@ def dropKept (f : Option Nat) : List (Spec.RawTok Tok) → Nat → List (Spec.Ra
   | [], _ => []
   | r :: rest, n + 1 => if Spec.keeps f r.tok then dropKept f rest n else dropKept f rest (n + 1)
 
+/-- the smallest and largest byte offset mentioned by the span / position fields of a
+reported error (`es=`, `ts=`: spans of six numbers; `end=`: a position of three) -/
+def errByteRange (e : String) : Option (Nat × Nat) :=
+  let body := ((e.splitOn "{").getD 1 "").dropEndWhile (· == '}') |>.toString
+  let bytes := (body.splitOn ";").flatMap fun fld =>
+    match fld.splitOn "=" with
+    | [k, v] =>
+      let ns := (v.splitOn ".").map nat!
+      if k == "es" || k == "ts" then [ns.getD 0 0, ns.getD 3 0]
+      else if k == "end" then [ns.getD 0 0]
+      else []
+    | _ => []
+  match bytes with
+  | [] => none
+  | b :: bs => some (bs.foldl min b, bs.foldl max b)
+
+/-- the byte bounds of each segment of the list (as `Spec.listSpec` splits them): from the
+start of the separator before it (or the start of the list) to the end of the separator or
+abort token after it (or the end of the text), inclusive -/
+def segmentBounds (sep : Nat) (abort : List Nat) (startByte len : Nat) (view : List (Spec.RawTok Tok)) :
+    List (Nat × Nat) :=
+  let rec go (left : Nat) : List (Spec.RawTok Tok) → List (Nat × Nat)
+    | [] => [(left, len)]
+    | r :: rest =>
+      if abort.contains r.tok.kind then [(left, r.stop.byte)]
+      else if r.tok.kind == sep then (left, r.stop.byte) :: go r.start.byte rest
+      else go left rest
+  go startByte view
+
 /-- `tail`: a plain parser of the PEG family run after the list (`both list tail`): it sees the
 stream from where the list stopped. -/
 def listOracleCore (c : Case) (o : ImplObs) (v lo : Nat) (hi : Option Nat) (item : G) (sep : Nat) (abort : List Nat)
@@ -475,7 +504,19 @@ def listOracleCore (c : Case) (o : ImplObs) (v lo : Nat) (hi : Option Nat) (item
     let nbad := ex.nbad
     let tooFew := entries.length < lo
     if c.sink then
-      verdict (judge expVal ex.consumed (nbad + (if tooFew then 1 else 0)) "")
+      -- the k-th reported error belongs to the k-th bad segment and lies within its delimiters
+      let bounds := segmentBounds sep abort 0 (bytes c.text) view
+      let badBounds := ((entries.zip bounds).filter (·.1.isNone)).map (·.2)
+      let located : List String :=
+        if o.results.length == 1 && o.sink.length == nbad + (if tooFew then 1 else 0) then
+          ((o.sink.take nbad).zip badBounds).filterMap fun (e, (l, r)) =>
+            match errByteRange e with
+            | some (lo', hi') =>
+              if l ≤ lo' && hi' ≤ r then none
+              else some s!"the error {e} of a bad segment is not between its delimiters (bytes {l}..{r})"
+            | none => none
+        else []
+      verdict (judge expVal ex.consumed (nbad + (if tooFew then 1 else 0)) "" ++ located)
         (if ex.lastBadAtEnd then "F21-bad-last-segment-without-abort-token " else "")
     else
       if nbad == 0 && !tooFew then verdict (judge expVal ex.consumed 0 "all segments are good: ") ""
@@ -613,7 +654,12 @@ def run (fam : String) (fields : List String) : String × String :=
     let errV := if fam == "twice" then "ok" else errorsOracle c impl
     let c03e := if errV.startsWith "FAIL" && (errV.splitOn "is not a canonical in-bounds span").length > 1
       then "FAIL C03: an error span is not a canonical in-bounds span" else "ok"
-    let extra := [nopanicOracle impl, c03, c03e] ++
+    -- C13 on bracket errors: the error returned must be the one that names the offending bracket
+    -- (what the reference matcher reports), not merely some bracket error
+    let c13b := if fam == "bracket" && verdict.startsWith "FAIL C10: reference matcher says" &&
+        (verdict.splitOn "the combinator returned err:").length > 1
+      then "FAIL C13: the bracket error does not name the offending bracket: " ++ (verdict.drop 10).toString else "ok"
+    let extra := [nopanicOracle impl, c03, c03e, c13b] ++
       (if fam == "errors" || fam == "twice" then [] else [errV])
     let fails := ([verdict] ++ extra).filterMap fun v =>
       if v.startsWith "FAIL " then some (v.drop 5).toString else none
